@@ -117,3 +117,29 @@ Theorem C03_resolve_spec :
      end).
 Proof. exact resolve_spec. Qed.
 Print Assumptions C03_resolve_spec.
+
+(* load(): the dispatch on (path | raw file | BytesIO | other object) x mmap_mode x ensure_native_byte_order x
+   detected compressor is TOTAL and as documented: the only error is "native byte order demanded together with
+   an mmap_mode"; memory mapping happens exactly for a path + uncompressed file + mmap_mode, and then the byte
+   order is never coerced (the assert in NumpyArrayWrapper.read cannot fire); an mmap_mode that cannot be
+   honoured gives exactly the documented warning (compressed file / BytesIO / not a raw file) and a copy --
+   except for an open raw file object, which is silently copied (the validated mode is dropped by load()). *)
+Theorem C03_load_dispatch : forall s mmap na k, plain_or_available k ->
+  let native := match na with NAuto => negb mmap | NTrue => true | NFalse => false end in
+  (load_decide s mmap na k = Raise ValueError <-> (na = NTrue /\ mmap = true)) /\
+  ((na = NTrue /\ mmap = true) \/ exists p, load_decide s mmap na k = Ok p /\
+     lp_native p = native /\
+     (lp_mmap p = true <-> s = SPath /\ k = KPlain /\ mmap = true) /\
+     (lp_mmap p = true -> lp_native p = false) /\
+     (lp_warn p = WCompressed <-> mmap = true /\ k <> KPlain) /\
+     (lp_warn p = WBytesIO <-> mmap = true /\ k = KPlain /\ s = SBytesIO) /\
+     (lp_warn p = WNotRaw <-> mmap = true /\ k = KPlain /\ s = SOtherObj) /\
+     (s = SRawFile -> k = KPlain -> lp_warn p = WNone /\ lp_mmap p = false)).
+Proof. exact load_dispatch. Qed.
+Print Assumptions C03_load_dispatch.
+
+(* a compressor whose backing module is missing (lz4 here) is refused on load as well *)
+Theorem C03_load_unavailable : forall s mmap na c, codec_available c = false ->
+  load_decide s mmap na (KCodec c) = Raise ValueError.
+Proof. exact load_decide_unavailable. Qed.
+Print Assumptions C03_load_unavailable.
